@@ -156,7 +156,7 @@ impl ExtraAccountMetaList {
         data: &mut [u8],
         extra_account_metas: &[ExtraAccountMeta],
     ) -> Result<(), ProgramError> {
-        let mut state = TlvStateMut::unpack(data).unwrap();
+        let mut state = TlvStateMut::unpack(data)?;
         let tlv_size = ListView::<ExtraAccountMeta>::size_of(extra_account_metas.len())?;
         let (bytes, _) = state.alloc::<T>(tlv_size, false)?;
         let mut validation_data = ListView::<ExtraAccountMeta>::init(bytes)?;
@@ -172,7 +172,7 @@ impl ExtraAccountMetaList {
         data: &mut [u8],
         extra_account_metas: &[ExtraAccountMeta],
     ) -> Result<(), ProgramError> {
-        let mut state = TlvStateMut::unpack(data).unwrap();
+        let mut state = TlvStateMut::unpack(data)?;
         let tlv_size = ListView::<ExtraAccountMeta>::size_of(extra_account_metas.len())?;
         let bytes = state.realloc_first::<T>(tlv_size)?;
         let mut validation_data = ListView::<ExtraAccountMeta>::init(bytes)?;
